@@ -101,6 +101,12 @@ class FamilyInit(InitMode):
         return f"Val (mk_{self.info.name} " + " ".join(vals) + ")"
 
     def write_field(self, f, v, t, rest):
+        if f in self.fam.skip_fields:
+            return rest()
+        if f in self.fam.field_types:
+            if not py2v.compat(t, self.fam.field_types[f]):
+                bad(None, f"field {f}: a value of type {t} where the unit declares {self.fam.field_types[f]}")
+            t = self.fam.field_types[f]
         self.assigned.add(f)
         old = self.info.ftype(f)
         if old is None:
@@ -117,6 +123,17 @@ class FamilyInit(InitMode):
         return f"self_{f}"
 
     def stmts(self, ss, env):
+        # fields the unit leaves out (tables of bound methods: their use is translated as a dispatch on the type)
+        if ss and isinstance(ss[0], (ast.Assign, ast.AnnAssign)):
+            tgt = ss[0].targets[0] if isinstance(ss[0], ast.Assign) else ss[0].target
+            if isinstance(tgt, ast.Attribute) and isinstance(tgt.value, ast.Name) and tgt.value.id == "self" and tgt.attr in self.fam.skip_fields:
+                return self.stmts(ss[1:], env)
+            if isinstance(ss[0], ast.AnnAssign) and isinstance(tgt, ast.Attribute) and isinstance(tgt.value, ast.Name) and tgt.value.id == "self" \
+                    and tgt.attr in self.fam.field_types and ss[0].value is not None:
+                plain = ast.Assign(targets=[tgt], value=ss[0].value)  # the unit gives this field's type; the source annotation is not read
+                ast.copy_location(plain, ss[0])
+                ast.fix_missing_locations(plain)
+                return self.stmts([plain] + ss[1:], env)
         # super().__init__(args): the parent's body inlined, its parameters bound to the arguments
         if ss and isinstance(ss[0], ast.Expr) and isinstance(ss[0].value, ast.Call) and ast.unparse(ss[0].value.func) == "super().__init__":
             call, rest = ss[0].value, ss[1:]
@@ -185,7 +202,16 @@ class FamilyInit(InitMode):
     def call_self(self, m, a, ret, r, ex, x, k):
         """self.m(args) inside __init__: the method as this class resolves it, inlined (its locals renamed apart); the
         fields assigned so far are what it sees of self."""
-        res = self.fam.resolve(self.cls, m)
+        return inline_call(self, self.cls, m, a, ret, k)
+
+
+def inline_call(mode, cls, m, a, ret, k, const_args=None):
+    """The body of method m (as class cls resolves it) in place of the call: locals renamed apart, parameters bound to the
+    argument terms `a` (or, for arguments that are constants / tuples of constants, substituted), `return v` continuing
+    with k."""
+    if True:
+        self = mode
+        res = self.fam.resolve(cls, m)
         if res is None:
             bad(None, f"unknown method {m}")
         d = res[1]
@@ -202,8 +228,16 @@ class FamilyInit(InitMode):
 
         body = [Ren().visit(copy.deepcopy(st)) for st in d.body]
         params = self.info.methods[m][0]
-        lets = "".join(f"let {n}_{p} := {v} in\n" for (p, _), v in zip(params, a))
-        env_c = {f"{n}_{p}": t for p, t in params}
+        const_args = const_args or {}
+        pre = []
+        for p, c in const_args.items():  # constant arguments: bound by an assignment the translator sees through
+            asg = ast.Assign(targets=[ast.Name(id=f"{n}_{p}", ctx=ast.Store())], value=c)
+            ast.fix_missing_locations(asg)
+            pre.append(asg)
+        body = pre + body
+        lets = "".join(f"let {n}_{p} := {v} in\n" for (p, _), v in zip(params, a) if p not in const_args)
+        env_c = {f"{n}_{p}": t for p, t in params if p not in const_args}
+        env_c.update({kk: vv for kk, vv in getattr(self, "env_now", {}).items() if kk == "ys__"})
         saved = (self.ret_val, self.fall_off)
 
         def k2(v, t):
@@ -246,6 +280,34 @@ class FamilyMethod(MethodMode):
         super().__init__(tr, info, ret, muts)
         self.fam = fam
 
+    def call(self, e, env, k):
+        f = e.func
+        # self.m(..) for a method the unit says to inline (its constant arguments are substituted: loops over them unroll)
+        if isinstance(f, ast.Attribute) and isinstance(f.value, ast.Name) and f.value.id == "self" and f.attr in self.fam.inline:
+            params, ret = self.info.methods[f.attr]
+            by_name = {kw.arg: kw.value for kw in e.keywords}
+            actuals = [e.args[i] if i < len(e.args) else by_name.get(p) for i, (p, _) in enumerate(params)]
+            if any(x is None for x in actuals):
+                bad(e, "arguments")
+            consts = {p: x for (p, _), x in zip(params, actuals)
+                      if isinstance(x, ast.Constant) or (isinstance(x, ast.Tuple) and all(isinstance(c, ast.Constant) for c in x.elts))}
+            rest_params = [(p, t) for p, t in params if p not in consts]
+            call2 = ast.Call(func=f, args=[x for (p, _), x in zip(params, actuals) if p not in consts], keywords=[])
+            cls = self.fam.order[0] if len(self.fam.order) == 1 else None
+            if cls is None:
+                bad(e, "inlining in a family of several classes")
+
+            def go(a):
+                full = []
+                it = iter(a)
+                for p, _ in params:
+                    full.append(None if p in consts else next(it))
+                return inline_call(self, cls, f.attr, full, ret, k, consts)
+            return self.args(call2, rest_params, env, go)
+        if self.fam.userlist and isinstance(f, ast.Name) and f.id == "len" and len(e.args) == 1 and isinstance(e.args[0], ast.Name) and e.args[0].id == "self":
+            return k(f"(seq_len {self.read_field('data')})", "int")
+        return super().call(e, env, k)
+
     def expr(self, e, env, k):
         if isinstance(e, ast.Attribute) and ast.unparse(e.value) == "self.__class__":
             t = self.fam.attr_types.get(e.attr)
@@ -265,12 +327,6 @@ class FamilyMethod(MethodMode):
             return k(f"(negb (seq_len {self.read_field('data')} =? 0))")
         return super().cond(e, env, k)
 
-    def call(self, e, env, k):
-        f = e.func
-        if self.fam.userlist and isinstance(f, ast.Name) and f.id == "len" and len(e.args) == 1 and isinstance(e.args[0], ast.Name) and e.args[0].id == "self":
-            return k(f"(seq_len {self.read_field('data')})", "int")
-        return super().call(e, env, k)
-
     def stmts(self, ss, env):
         if self.fam.userlist and ss and isinstance(ss[0], ast.Expr) and isinstance(ss[0].value, ast.Call) and ast.unparse(ss[0].value.func) == "self.clear" \
                 and not ss[0].value.args and not ss[0].value.keywords:
@@ -278,9 +334,41 @@ class FamilyMethod(MethodMode):
         return super().stmts(ss, env)
 
 
-def add_family(tr: Translator, root: str, nodes: list[ast.ClassDef], userlist: bool, rel: str, skip: tuple = ()) -> None:
+def inline_properties(nodes: list[ast.ClassDef]) -> None:
+    """@property def p(self): return <pure expression over self>  --  every `self.p` becomes that expression."""
+    import copy
+
+    props = {}
+    for n in nodes:
+        for m in n.body:
+            if isinstance(m, ast.FunctionDef) and [ast.unparse(d) for d in m.decorator_list] == ["property"]:
+                body = [st for st in m.body if not (isinstance(st, ast.Expr) and isinstance(st.value, ast.Constant))]
+                if len(body) == 1 and isinstance(body[0], ast.Return) and body[0].value is not None and py2v.is_pure(body[0].value):
+                    props[m.name] = body[0].value
+
+    class Sub(ast.NodeTransformer):
+        def visit_Attribute(self, node):
+            self.generic_visit(node)
+            if isinstance(node.value, ast.Name) and node.value.id == "self" and node.attr in props and isinstance(node.ctx, ast.Load):
+                return ast.copy_location(copy.deepcopy(props[node.attr]), node)
+            return node
+    for n in nodes:
+        n.body = [m for m in n.body if not (isinstance(m, ast.FunctionDef) and m.name in props)]
+        for i, m in enumerate(n.body):
+            n.body[i] = ast.fix_missing_locations(Sub().visit(m))
+
+
+def add_family(tr: Translator, root: str, nodes: list[ast.ClassDef], userlist: bool, rel: str, skip: tuple = (), spec: dict | None = None) -> None:
+    spec = spec or {}
+    inline_properties(nodes)
     fam = Family(tr, root, nodes, userlist)
     fam.skip = set(skip)
+    fam.skip_fields = set(spec.get("skip_fields", ()))
+    fam.inline = set(spec.get("inline", ()))
+    fam.param_types = spec.get("param_types", {})
+    fam.yield_types = spec.get("yield_types", {})
+    fam.dispatch = spec.get("dispatch", {})
+    fam.field_types = {f: ann_type(ast.parse(a, mode="eval").body, tr.classes) for f, a in spec.get("field_types", {}).items()}
     info = ClassInfo(root)
     info.family = fam
     tr.families = getattr(tr, "families", {})
@@ -305,6 +393,10 @@ def add_family(tr: Translator, root: str, nodes: list[ast.ClassDef], userlist: b
                 continue
             if isinstance(n, (ast.Assign, ast.AnnAssign)):
                 nm = n.targets[0].id if isinstance(n, ast.Assign) else n.target.id
+                if isinstance(n.value, ast.Dict):
+                    fam.tables = getattr(fam, "tables", {})
+                    fam.tables[nm] = n.value
+                    continue
                 if nm not in attr_names:
                     attr_names.append(nm)
                 continue
@@ -328,7 +420,15 @@ def add_family(tr: Translator, root: str, nodes: list[ast.ClassDef], userlist: b
             a = d.args
             if a.vararg or a.kwarg or a.posonlyargs or a.defaults or a.kwonlyargs:
                 bad(d, "parameter kinds / defaults")
-            s = ([(p.arg, ann_type(p.annotation, tr.classes)) for p in a.args[1:]], ann_type(d.returns, tr.classes))
+            def ptype(p):
+                ov = fam.param_types.get(f"{m}.{p.arg}")
+                return ann_type(ast.parse(ov, mode="eval").body if ov else p.annotation, tr.classes)
+            rt = ann_type(ast.parse(fam.yield_types[m], mode="eval").body, tr.classes) if m in fam.yield_types else ann_type(d.returns, tr.classes)
+            if m in fam.yield_types:
+                rt = ("gen", rt)
+            elif any(isinstance(y, (ast.Yield, ast.YieldFrom)) for st in d.body for y in ast.walk(st)) and isinstance(rt, tuple) and rt[0] == "iter":
+                rt = ("gen", rt[1])
+            s = ([(p.arg, ptype(p)) for p in a.args[1:]], rt)
             if sig is not None and sig != s:
                 bad(d, "an override with another signature")
             sig = s
@@ -348,7 +448,7 @@ def add_family(tr: Translator, root: str, nodes: list[ast.ClassDef], userlist: b
             # record, setters, tag
             tr.out.append(f"Inductive {root}_cls := " + " | ".join(fam.tag(c) for c in fam.order) + ".")
             tr.out.append(f"Definition {root}_cls_eqb (a b : {root}_cls) : bool :=\nmatch a, b with\n" +
-                          "\n".join(f"| {fam.tag(c)}, {fam.tag(c)} => true" for c in fam.order) + "\n| _, _ => false\nend.")
+                          "\n".join(f"| {fam.tag(c)}, {fam.tag(c)} => true" for c in fam.order) + ("\n| _, _ => false" if len(fam.order) > 1 else "") + "\nend.")
             fields = [("cls_tag", None)] + list(info.fields)
             tr.out.append(f"Record {root} := mk_{root} {{ {root}_cls_tag : {root}_cls; " + "; ".join(f"{root}_{f} : {coq_type(t)}" for f, t in info.fields) + " }.")
             allf = [f"{root}_cls_tag"] + [f"{root}_{f}" for f, _ in info.fields]
@@ -418,7 +518,11 @@ def add_family(tr: Translator, root: str, nodes: list[ast.ClassDef], userlist: b
 def emit_method(tr, fam: Family, info, m: str, sig) -> None:
     params, ret = sig
     root = fam.root
-    muts = [(p, t) for p, t in params if is_mutable(t)]
+    defs = [fam.resolve(c, m)[1] for c in fam.order if fam.resolve(c, m)]
+    # a message parameter that no implementation writes to (or hands on) is read-only: not an in/out parameter
+    muts = [(p, t) for p, t in params if is_mutable(t) and not (t[0] == "pb" and not any(py2v.param_is_written(p, d.body) for d in defs))]
+    if not muts:
+        py2v.READER_METHODS.add(m)
     if muts:
         if not all(t[0] in ("pb", "iter") for _, t in muts):
             bad(None, f"{root}.{m}: a method that changes a table or a collection passed to it")
